@@ -8,7 +8,10 @@ when every file recovery can read is byte-identical).  Transitions:
     write (torn write) + a soft crash (exception, finally-block runs) before/after the n-th call of
     every instrumented program point;
   * from a crash image: resume (or rerun when no checkpoint exists yet) with a further hard
-    (os._exit) or soft crash at a program point, up to 3 crashes deep.
+    (os._exit) or soft crash at a program point, up to 3 crashes deep;
+  * from chosen crash images that hold a checkpoint: every prefix (and torn page split) of the write
+    journal of the RESUMED process, applied to the image it started from (depth 2, SIGKILL at every
+    instant of the resumed run, including its clean-up of what the first crash left behind).
 Oracle in EVERY state: the checkpoint, if present, loads and carries the documented keys; recovery
 finishes the planned steps; every HDF5 dataset and the XYZ frame sequence equal the uninterrupted
 reference (vp.drivers.crash.compare_outputs).
@@ -35,7 +38,9 @@ ASSUMPTIONS = [
     "un-fsynced blocks is outside the statement",
     "the write journal sees every file mutation made through libc (validated each run: replaying the "
     "whole journal reproduces the run directory byte for byte)",
-    "hard kills inside a RESUMED run are injected at instrumented program points, not at every journal prefix",
+    "hard kills inside a RESUMED run: at every prefix of the resumed process's own write journal for the start images "
+    "chosen in phase 2b (after each checkpoint publication and half-way to the next one; configurations of level >= 1), "
+    "at instrumented program points elsewhere",
 ]
 
 _CFG = {}
@@ -263,6 +268,19 @@ def _journal_task(cname):
     return ops, rundir
 
 
+def _is_burst(ops, n):
+    """a kill after n operations falls between two consecutive positional writes to an HDF5 file"""
+    return 0 < n < len(ops) and all(o["kind"] == 1 and o["path"].endswith(".h5") for o in (ops[n - 1], ops[n]))
+
+
+def _jresume_task(item):
+    cname, sdir, tag = item
+    try:
+        return CR.journaled_resume(_CFG[cname], os.path.join(_ROOT, cname), sdir, tag)
+    except Exception as e:  # noqa: BLE001
+        return f"{type(e).__name__}: {e}"
+
+
 def _viol_expand(chk, sp, crash, r, via_prefix=""):
     c = crash
     chk.violation(
@@ -342,6 +360,72 @@ def explore_all(chk, spaces, tier):
         sp.add(r["key"], r["dir"], 1, f"{c[0]}#{c[1]}:{c[2]}:soft")
         if c[0] in ("step", "save_checkpoint", "os_replace"):
             sp.boundary.add(r["key"])
+    # phase 2b: the physical write journal of RESUMED runs.  From chosen crash images that hold a checkpoint (right after
+    # each publication: nothing to drop; and half-way to the next publication: rows and frames beyond the checkpoint are
+    # on disk and the resumed process has to drop them first) the real run_from_checkpoint is executed in a subprocess under
+    # the write journal; every prefix of THAT journal applied to the image it started from (and every page split of a
+    # multi-page last write) is a depth-2 state = SIGKILL of the resumed process at every possible instant, including
+    # while it is still cleaning up after the first crash.
+    jobs = []
+    for sp in spaces:
+        if sp.level < 1 and not sp.cfg.get("journal_resume"):
+            continue
+        ops = sp.ops
+        pubs = [i + 1 for i, o in enumerate(ops) if o["kind"] == 3 and o["payload"] == "md.restart.pt"]
+        cand = []
+        for j, n in enumerate(pubs):
+            cand.append(n)
+            nxt = pubs[j + 1] if j + 1 < len(pubs) else len(ops)
+            m = (n + nxt) // 2
+            while m < nxt and _is_burst(ops, m):
+                m += 1
+            if n < m < nxt:
+                cand.append(m)
+        if tier == "quick" and not sp.cfg.get("journal_resume_all"):
+            cand = cand[:4]
+        for n in cand:
+            files = CR.apply_ops(ops[:n])
+            k, d = _store({a: bytes(b) for a, b in files.items()}, sp.cname)
+            if k in sp.states:
+                jobs.append((sp, k, n))
+    with ThreadPoolExecutor(max_workers=8) as ex:
+        jres = list(ex.map(_jresume_task, [(sp.cname, sp.states[k]["dir"], f"p{n}") for sp, k, n in jobs]))
+    n_resumed_journal_states = 0
+    for (sp, k, n), jr_ in zip(jobs, jres):
+        if isinstance(jr_, str):
+            chk.violation(
+                _desc(sp.cname, sp.cfg, sp.states[k]["via"], ["recovery"], {"had_checkpoint": True}),
+                f"{sp.cname}: resuming under the write journal after [{sp.states[k]['via']}] failed: {jr_}",
+                replay={"config": sp.cname, "via": sp.states[k]["via"], "seed": sp.cfg.get("rot", 0)},
+            )
+            continue
+        rops, rdir = jr_
+        base = _read_image(sp.states[k]["dir"])
+        full = CR.apply_ops(rops, base=base)
+        disk = _read_image(rdir)
+        for name, data in disk.items():
+            if bytes(full.get(name, b"")) != data:
+                chk.harness_error(f"{sp.cname}: journal replay of the resumed run (from prefix {n}) does not reproduce {name}")
+                return
+        via0 = sp.states[k]["via"] + " -> "
+        for m in range(1, len(rops) + 1):
+            files = CR.apply_ops(rops[:m], base=base)
+            k2, d2 = _store({a: bytes(b) for a, b in files.items()}, sp.cname)
+            sp.edges += 1
+            burst = m < len(rops) and _is_burst(rops, m)
+            if sp.add(k2, d2, 2, via0 + f"resumed-journal-prefix#{m}{'(h5-burst)' if burst else ''}:hard"):
+                n_resumed_journal_states += 1
+            _MUST[(sp.cname, k2)] = True
+            if rops[m - 1]["kind"] in (1, 2) and len(rops[m - 1]["payload"]) > 4096:
+                for cut in range(4096, len(rops[m - 1]["payload"]), 4096):
+                    files = CR.apply_ops(rops[:m], torn=cut, base=base)
+                    k2, d2 = _store({a: bytes(b) for a, b in files.items()}, sp.cname)
+                    sp.edges += 1
+                    if sp.add(k2, d2, 2, via0 + f"resumed-torn-write#{m}@{cut}({rops[m - 1]['path'].split('.')[-1]}):hard"):
+                        n_resumed_journal_states += 1
+                    _MUST[(sp.cname, k2)] = True
+        chk.extra.setdefault("resumed_journals", {})[f"{sp.cname}@prefix{n}"] = len(rops)
+    chk.extra["resumed_journal_states"] = n_resumed_journal_states
     # phase 3: crashes of resumed runs, depth 2 and 3
     frontier = {}
     for sp in spaces:
@@ -456,6 +540,14 @@ def replay(payload):
         work = os.path.join(_ROOT, "work")
         os.makedirs(work)
         for i, el in enumerate(via.split(" -> ")):
+            rm_ = re.match(r"resumed-(?:journal-prefix|torn-write)#(\d+)(?:@(\d+))?", el)
+            if rm_:
+                rops, _rd = CR.journaled_resume(cfg, os.path.join(_ROOT, cname), work, f"replay{i}")
+                base = _read_image(work)
+                files = CR.apply_ops(rops[: int(rm_.group(1))], torn=int(rm_.group(2)) if rm_.group(2) else None, base=base)
+                shutil.rmtree(work)
+                CR.write_image({a: bytes(b) for a, b in files.items()}, work)
+                continue
             m = re.match(r"journal-prefix#(\d+)", el)
             t = re.match(r"torn-write#(\d+)@(\d+)", el)
             if m or t:
